@@ -443,8 +443,9 @@ class QuarterSplineRing(SplineRound):
         return [self.faces]
 
     @property
-    def core(self):
-        return None
+    def core(self) -> List[Face]:
+        # a ring has no core (an empty list, like Annulus: shapes count and slice with it)
+        return []
 
     @property
     def shell(self):
